@@ -58,6 +58,31 @@ CHECKS = {
             'every spelling and value, find_metaclass/find_class/select under every class spelling, attribute_type.',
             'Trusted: the reference dict keyed by upper-cased name. After a deletion only uniformity across spellings is required.',
             'DESIGN.md section 5, C10'),
+    'C07': ('enumerator',
+            'bounded exhaustive enumeration of expression trees, statement productions and layouts, parsed by the real parser (tables regenerated from the working-tree grammar) and compared with the printed tree',
+            'All expression trees of depth <= 3 over all 16 binary and 6 unary operators (two operand kinds at depth 3, all 40 '
+            'operand kinds at depth <= 2; thorough adds depth 4 over one operator per precedence level), printed with the '
+            'minimal parentheses the precedence table requires, fully parenthesised, and with one redundant pair around each '
+            'sub-expression in turn; every statement production of the grammar with every combination of its optional words '
+            '(coverage of all 128 grammar functions is measured on the instrumented parser and enforced); every program under '
+            'the default layout, every single-gap deviation (nothing, spaces, tab, line break, CRLF, block comment, line comment, '
+            'multi-line comment), every uniform layout, leading/trailing layout and every white-space variant inside end if/for/'
+            'while (thorough: all pairs of deviations for short programs). Oracle: strict structural comparison (class, every '
+            'field, child count and order).',
+            'Trusted: mc/refs/oalast.py (printer + expected tree). The bootstrap regenerates PLY tables from the grammar, so '
+            'precedence/grammar edits that the stale tables in /repo hide are seen; a grammar that no longer builds is reported.',
+            'DESIGN.md section 5, C07'),
+    'C13': ('enumerator',
+            'bounded exhaustive enumeration of strings, token sequences, single-token edits, truncations and pumped inputs (hard-kill time budget) for totality; printed programs with recorded spans for positions',
+            'Totality: every string of length <= 3 (thorough 4) over a 37-character alphabet, every token sequence of length <= 2 '
+            'over 96 lexemes and <= 3 (thorough 4) over 30 (44), every single-token deletion/duplication/adjacent swap and every '
+            'truncation of 400 valid programs must give a tree or oal.ParseException; pumped inputs prefix+unit^n for 17 '
+            'lexer-significant prefixes x 41 units x n in {16,32,48} run in disposable processes killed after 2 s (a slow case '
+            'must repeat twice alone). Positions: for the C07 program and layout families every statement and expression node '
+            'must carry exactly the line/column of its first and last character and the exact substring, incl. spans enlarged '
+            'by grouping parentheses and line breaks inside end if/for/while.',
+            'Trusted: mc/refs/oalast.py span recording; wall-clock budget with a three-orders-of-magnitude margin.',
+            'DESIGN.md section 5, C13; 3.5'),
 }
 
 NOT_YET = 'check not built yet in this revision (planned, see DESIGN.md section 5); not claimed until it exists'
